@@ -139,6 +139,93 @@ def job_radiogenic():
     return {'results': results, 'encoded': loader.ENCODED, 'axioms': CTX.axiom_notes, 'label': 'radiogenic'}
 
 
+
+# ------------------------------------------------------------------------------------------------ radiogenics: the Radiogenics class (glue between a layer's config and the model)
+def job_radiogenic_glue():
+    """Radiogenics.__init__ / Radiogenics.reinit of the current source are executed on a stub `self` whose config carries SYMBOLIC isotope entries; the constant arguments are then
+    collected from self.config in the order of the model's own `!TPY_args const:` line and fed to the symbolically loaded `isotope`. z3 decides that the heating at an arbitrary time equals
+    the model applied to the CURRENT isotope table after the first init, after a second reinit (idempotence) and after the table has been replaced (nothing left over from the old table)."""
+    import re, json, subprocess, tempfile
+    LN = Q.sym('LOG_HALF')
+    mfns, _ = loader.load_py('TidalPy/radiogenics/radiogenic_models.py', ['isotope'], {'np': NP, 'LOG_HALF': LN, 'zip': zip})
+    iso = mfns['isotope']
+    doc = open(loader.repo_path('TidalPy/radiogenics/radiogenic_models.py')).read()
+    m_ = re.search(r'def isotope\(.*?!TPY_args const:\s*([^\n]+)', doc, re.S)
+    const_names = [x.strip() for x in m_.group(1).split(',')]
+
+    class _Log:
+        def __getattr__(self, k):
+            return lambda *a, **kw: None
+
+    class _Self:
+        def __getattr__(self, k):            # the read-only properties isos_* of the class return the underscore attributes
+            if k.startswith('isos_'):
+                return self.__dict__['_' + k]
+            raise AttributeError(k)
+
+    class _Super:
+        def __init__(self, *a, **kw):
+            pass
+
+        def reinit(self, *a, **kw):
+            pass
+    ns = {'log': _Log(), 'super': lambda *a: _Super(), 'TidalPy': None, 'UnknownModelError': KeyError, 'ParameterMissingError': KeyError, 'type': type, 'list': list, 'str': str}
+    fns, _ = loader.load_py('TidalPy/radiogenics/radiogenics.py', ['Radiogenics.__init__', 'Radiogenics.reinit'], ns)
+    _Self.reinit = lambda self, initial_init=False: fns['Radiogenics.reinit'](self, initial_init)
+    t, m, tref = Q.sym('t'), Q.sym('mass'), Q.sym('t_ref')
+
+    def table(prefix, n):
+        rows = {}
+        for i in range(n):
+            rows['%s%d' % (prefix, i)] = {'iso_mass_fraction': Q.sym('%sf%d' % (prefix, i)), 'element_concentration': Q.sym('%sc%d' % (prefix, i)),
+                                          'half_life': Q.sym('%sh%d' % (prefix, i)), 'hpr': Q.sym('%sq%d' % (prefix, i))}
+        return rows
+
+    def direct(rows):
+        v = list(rows.values())
+        return iso(t, m, tuple(x['iso_mass_fraction'] for x in v), tuple(x['element_concentration'] for x in v), tuple(x['half_life'] for x in v), tuple(x['hpr'] for x in v), tref)
+
+    def via_glue(obj):
+        return iso(t, m, *[obj.config[k] for k in const_names])
+    A_, B_ = table('a', 2), table('b', 1)
+    pos = [x.re > 0 for r in list(A_.values()) + list(B_.values()) for x in r.values()] + [m.re > 0, LN.re < 0]
+    CTX.facts = list(pos)
+    obj = _Self()
+    obj.__dict__.update(config={'isotopes': dict(A_), 'ref_time': tref, 'radiogenic_layer_mass_fraction': Q(1)}, model='isotope')
+    fns['Radiogenics.__init__'](obj, None, None, True, True)
+    g_fresh = eq_goal(via_glue(obj), direct(A_))
+    n_fresh = len(obj.config['iso_halflives'])
+    obj.reinit()
+    g_again = eq_goal(via_glue(obj), direct(A_))
+    n_again = len(obj.config['iso_halflives'])
+    obj.config['isotopes'] = dict(B_)
+    obj.reinit()
+    g_repl = eq_goal(via_glue(obj), direct(B_))
+    n_repl = len(obj.config['iso_halflives'])
+
+    def rp(md):
+        val = lambda k, d: fv(md, k, d)
+        A = {'a%d' % i: [val('af%d' % i, 0.001 * (i + 1)), val('ac%d' % i, 0.002 * (i + 1)), val('ah%d' % i, 2.0 + i), val('aq%d' % i, 0.5 / (i + 1))] for i in range(2)}
+        Bt = {'b0': [val('bf0', 0.02), val('bc0', 0.004), val('bh0', 3.0), val('bq0', 0.7)]}
+        inp = {'A': A, 'B': Bt, 'tref': fv(md, 't_ref', 10.0), 't': fv(md, 't', 11.0)}
+        env = dict(os.environ, PYTHONPATH=solve.REPO)
+        env.pop('VERIF_TIER', None)
+        with tempfile.TemporaryDirectory(prefix='verif_replay_') as td:
+            p = subprocess.run([replay.VENV_PY, os.path.join(os.path.dirname(os.path.dirname(os.path.abspath(__file__))), 'replay', 'c19_radiogenics.py')], input=json.dumps(inp),
+                               capture_output=True, text=True, cwd=td, env=env, timeout=600)
+        if '@@RESULT@@' not in p.stdout:
+            raise RuntimeError('c19 radiogenics replay failed: %s' % p.stderr[-1500:])
+        out = json.loads(p.stdout.split('@@RESULT@@')[-1])
+        bad = [k for k, (a, b) in out.items() if not (abs(a - b) <= 1e-9 * (abs(a) + abs(b)))]
+        return bool(bad), 'real Radiogenics object vs model function on the current isotope table: %r' % out
+    results = [discharge(Obligation('Radiogenics glue: heating via self.config (order of the model\'s !TPY_args const line) == isotope model on the CURRENT table: fresh, after a second reinit, '
+                                    'after the table was replaced; list lengths 2, 2, 1',
+                                    z3.And(g_fresh, g_again, g_repl, z3.BoolVal((n_fresh, n_again, n_repl) == (2, 2, 1))), pos, replay=rp, key='glue:reinit')),
+               reach_twin('radiogenic glue', pos)]
+    return {'results': results, 'encoded': loader.ENCODED, 'label': 'radiogenic glue',
+            'axioms': ['stubs: log (no-op), super().__init__/reinit (no-op: the LayerModelHolder/ModelHolder argument builder is outside; its key order is taken from the !TPY_args const line), '
+                       'properties isos_* read the underscore attributes; isotope table given as a dict (the pre-built named tables of TidalPy.config are outside)']}
+
 # ------------------------------------------------------------------------------------------------ cooling
 COOL_ARGS = ['dT', 'eta', 'k', 'kappa', 'alpha_t', 'L', 'g', 'rho', 'ca', 'cb', 'Rac']
 
@@ -333,7 +420,7 @@ def job_melting():
 
 
 def main():
-    jobs = [(job_radiogenic, {}), (job_viscosity, {}), (job_melting, {})]
+    jobs = [(job_radiogenic, {}), (job_radiogenic_glue, {}), (job_viscosity, {}), (job_melting, {})]
     for r1, r2 in (('main', 'main'), ('cold', 'cold'), ('thin', 'thin'), ('cold', 'main')):
         jobs.append((job_cooling, {'region1': r1, 'region2': r2}))
     meta = {
